@@ -10,7 +10,7 @@ from harness.props import unit_lts as U
 LEVEL = "proof"
 
 RACE = {"kinds": ["ok"], "workers": 1, "cof": False, "maxf": None, "max_examples": 2,
-        "schedule": ["W0"] * 7 + ["C", "C", "C"] + ["W0", "W0", "W0"] + ["C", "C", "C", "C", "C"]}
+        "schedule": ["W0"] * 7 + ["C", "C", "C"] + ["W0", "W0", "W0"] + ["C", "C", "C", "C", "C", "C", "C"]}
 LIMIT = {"kinds": ["fail", "ok"], "workers": 2, "cof": False, "maxf": 1, "max_examples": 2,
          "schedule": ["W0", "W0", "W1", "W1", "W0", "W1"] + ["W0"] * 40 + ["C"] * 8}
 
@@ -54,6 +54,13 @@ def run(chk: core.Check):
             bad += 1
             chk.fail(f"event stream not well formed: {defect}", sc, region=region(sc["workers"], sc["maxf"], defect))
     chk.stages["forced_schedules"] = {"runs": len(records), "streams_not_wf": bad}
+
+    # the consumer's exit condition, sub-step by sub-step
+    def judge(sc, r):
+        d = U.stream_wf(r["events"], False)
+        return None if d is None else f"event stream not well formed (exit-condition race search): {d}"
+
+    chk.stages["exit_condition_race_search"] = U.race_search(chk, (9 if quick else 60) * (3 if chk.broken else 1), judge)
 
     # free multi-phase runs with a stop request at a random event index
     n_free = (8 if quick else 80) * (10 if chk.broken else 1)
